@@ -66,6 +66,9 @@ type Net struct {
 	// hung is set once a wait hit the watchdog: the server under test is stuck, and
 	// every later wait fails at once instead of spending the watchdog again
 	hung int32
+	// listenerClosed: the server closed its listener; a connection that was offered but
+	// never accepted will never be served
+	listenerClosed int32
 }
 
 // New creates a world.
@@ -204,11 +207,12 @@ type Conn struct {
 	mu   sync.Mutex
 	cond *sync.Cond
 
-	inq     []chunk
-	eof     bool
-	stalled bool
-	closed  bool
-	blocked bool // server is parked in Read with nothing to deliver
+	inq      []chunk
+	eof      bool
+	stalled  bool
+	closed   bool
+	blocked  bool // server is parked in Read with nothing to deliver
+	accepted bool
 
 	out       []byte
 	outTaken  int
@@ -453,6 +457,13 @@ func (c *Conn) Stall() {
 // ErrWatchdog is returned when a wait exceeded the wall-clock watchdog.
 var ErrWatchdog = errors.New("simnet: watchdog expired")
 
+// ErrNeverAccepted: the listener was closed before the connection was accepted.
+var ErrNeverAccepted = errors.New("simnet: listener closed, connection was never accepted")
+
+func (c *Conn) orphaned() bool {
+	return !c.accepted && atomic.LoadInt32(&c.net.listenerClosed) != 0
+}
+
 // State of a connection at a quiescent point.
 type State struct {
 	Closed  bool
@@ -475,12 +486,22 @@ func (c *Conn) WaitQuiescent() (State, error) {
 		if c.blocked && len(c.inq) == 0 {
 			return State{Blocked: true}, nil
 		}
+		if c.orphaned() {
+			return State{}, ErrNeverAccepted
+		}
 		if time.Now().After(deadline) {
 			atomic.StoreInt32(&c.net.hung, 1)
 			return State{}, ErrWatchdog
 		}
 		c.timedWait(100 * time.Millisecond)
 	}
+}
+
+// Accepted reports whether the server has taken the connection off the listener.
+func (c *Conn) Accepted() bool {
+	c.mu.Lock()
+	defer c.mu.Unlock()
+	return c.accepted
 }
 
 // WaitClosed waits for the server to close the connection.
@@ -492,6 +513,9 @@ func (c *Conn) WaitClosed() error {
 	c.mu.Lock()
 	defer c.mu.Unlock()
 	for !c.closed {
+		if c.orphaned() {
+			return ErrNeverAccepted
+		}
 		if time.Now().After(deadline) {
 			atomic.StoreInt32(&c.net.hung, 1)
 			return ErrWatchdog
@@ -643,6 +667,9 @@ func (l *Listener) Accept() (net.Conn, error) {
 			c := l.pending[0]
 			l.pending = l.pending[1:]
 			l.net.Log(c.ID, KAccept, 0, "")
+			c.mu.Lock()
+			c.accepted = true
+			c.mu.Unlock()
 			return c, nil
 		}
 		if l.ticks > 0 {
@@ -664,6 +691,7 @@ func (l *Listener) Close() error {
 		return net.ErrClosed
 	}
 	l.closed = true
+	atomic.StoreInt32(&l.net.listenerClosed, 1)
 	l.net.Log(0, KLClose, 0, "")
 	l.cond.Broadcast()
 	return nil
@@ -677,6 +705,14 @@ func (l *Listener) SetDeadline(t time.Time) error {
 	l.mu.Unlock()
 	l.net.Log(0, KLSetDeadline, int(time.Until(t)/time.Millisecond), "")
 	return nil
+}
+
+// InjectAcceptErr makes the current (or next) Accept return err once.
+func (l *Listener) InjectAcceptErr(err error) {
+	l.mu.Lock()
+	l.AcceptErr = err
+	l.cond.Broadcast()
+	l.mu.Unlock()
 }
 
 // Tick lets virtual time reach the accept deadline: the current (or next)
